@@ -273,8 +273,93 @@ type vc13Entry struct {
 	// longkey, emptyurl, badurl, fileurl, typeerr.
 	T string `json:"t"`
 
-	// L is the rule-list name for valid, dupsame and dupalt.
+	// L is the rule-list name for valid, dupsame, dupalt and keybad.
 	L string `json:"l,omitempty"`
+
+	// U is, for keybad, the form of the download URL: the entry carries the
+	// key of list L, passes or fails validate() and is rejected at the latest
+	// when its URL is parsed; see vc13BadURLForms.
+	U string `json:"u,omitempty"`
+}
+
+// vc13BadURLForms are the forms of a download URL that make an index entry
+// invalid, by the stage of toInternal that rejects them.
+var vc13BadURLForms = []struct {
+	name  string
+	stage string
+}{
+	{name: "emptyurl", stage: "validate"},
+	{name: "ftp", stage: "url"},
+	{name: "ws", stage: "url"},
+	{name: "nohost", stage: "url"},
+	{name: "relative", stage: "url"},
+	{name: "noscheme", stage: "url"},
+	{name: "badport", stage: "url"},
+	{name: "ctrl", stage: "url"},
+	{name: "badescape", stage: "url"},
+}
+
+// vc13BadURLStage returns the stage that rejects the form.
+func vc13BadURLStage(form string) (stage string) {
+	for _, f := range vc13BadURLForms {
+		if f.name == form {
+			return f.stage
+		}
+	}
+
+	panic("vc13: bad url form " + form)
+}
+
+// vc13BadURL returns a download URL of the given invalid form that would
+// otherwise point at path on the server at base.
+func vc13BadURL(base, form, path string) (u string) {
+	hostport := strings.TrimPrefix(base, "http://")
+	switch form {
+	case "emptyurl":
+		return ""
+	case "ftp":
+		return "ftp://" + hostport + path
+	case "ws":
+		return "ws://" + hostport + path
+	case "nohost":
+		return "http://" + path
+	case "relative":
+		return path
+	case "noscheme":
+		return hostport + path
+	case "badport":
+		return "http://" + hostport + "x" + path
+	case "ctrl":
+		return base + path + "\x7f"
+	case "badescape":
+		return base + path + "%zz"
+	default:
+		panic("vc13: bad url form " + form)
+	}
+}
+
+// vc13LimitOf returns the size limit of the download at path.  Every limit is
+// different, so that a limit that reaches the wrong component shows at the
+// sizes limit-1 and limit+1.
+func vc13LimitOf(path string, hashMax int) (limit int) {
+	switch {
+	case path == vc13IdxPath:
+		return 3000
+	case path == "/svc":
+		return 3500
+	case path == "/ssg":
+		return 5000
+	case path == "/ssy":
+		return 4500
+	case path == "/hp/adult":
+		return hashMax
+	case path == "/hp/danger":
+		return hashMax - 8192
+	case path == "/hp/newreg":
+		return hashMax - 16384
+	default:
+		return vc13MaxSize
+	}
 }
 
 // vc13InvalidEntryTypes are the entry types that toInternal must skip.
@@ -291,11 +376,14 @@ type vc13IdxInfo struct {
 	// urls maps a rule-list name to the paths of its valid entries, in
 	// index order.
 	urls map[string][]string
+
+	// entries are the entries the body was built from.
+	entries []vc13Entry
 }
 
 // vc13IndexBody builds an index from entries.
 func vc13IndexBody(base string, ver int, entries []vc13Entry, notJSON bool, pad int) (b []byte, info *vc13IdxInfo) {
-	info = &vc13IdxInfo{class: "valid", urls: map[string][]string{}}
+	info = &vc13IdxInfo{class: "valid", urls: map[string][]string{}, entries: entries}
 	if notJSON {
 		info.class = "garbage"
 
@@ -337,6 +425,13 @@ func vc13IndexBody(base string, ver int, entries []vc13Entry, notJSON bool, pad 
 		case "longkey":
 			worse("partial")
 			fls = append(fls, map[string]any{"filterKey": strings.Repeat("k", 129), "downloadUrl": base + "/rl/none"})
+		case "keybad":
+			worse("partial")
+			fls = append(fls, map[string]any{
+				"filterKey":   "vc13_" + e.L,
+				"downloadUrl": vc13BadURL(base, e.U, vc13SlotByName(e.L).path),
+				"name":        e.L,
+			})
 		case "emptyurl":
 			worse("partial")
 			fls = append(fls, map[string]any{"filterKey": fmt.Sprintf("vc13_nourl_%d", i), "downloadUrl": ""})
@@ -430,6 +525,7 @@ func vc13NewUnits(
 	timeout time.Duration,
 	cacheOn bool,
 	hashMax int,
+	idxURL string,
 ) (u *vc13Units, err error) {
 	mustURL := func(p string) (res *url.URL) {
 		res, perr := url.Parse(base + p)
@@ -445,7 +541,17 @@ func vc13NewUnits(
 		count = 100
 	)
 
-	maxSize := datasize.ByteSize(vc13MaxSize)
+	// The rule-list index may also come from a hostless file URI, which is
+	// the second documented source of it (see FILTER_INDEX_URL).
+	idxU := mustURL(vc13IdxPath)
+	if idxURL != "" {
+		idxU, err = url.Parse(idxURL)
+		if err != nil {
+			return nil, fmt.Errorf("index url: %w", err)
+		}
+	}
+
+	limit := func(path string) (l datasize.ByteSize) { return datasize.ByteSize(vc13LimitOf(path, hashMax)) }
 	logger := slogutil.NewDiscardLogger()
 
 	u = &vc13Units{hashes: map[string]*hashprefix.Filter{}}
@@ -475,7 +581,7 @@ func vc13NewUnits(
 			CacheTTL:        time.Hour,
 			RefreshTimeout:  timeout,
 			CacheCount:      count,
-			MaxSize:         datasize.ByteSize(hashMax),
+			MaxSize:         limit(s.path),
 		})
 		if err != nil {
 			return nil, fmt.Errorf("hash filter %s: %w", s.name, err)
@@ -488,7 +594,7 @@ func vc13NewUnits(
 		return &filterstorage.ConfigSafeSearch{
 			URL:              mustURL(s.path),
 			ID:               s.id,
-			MaxSize:          maxSize,
+			MaxSize:          limit(s.path),
 			ResultCacheTTL:   time.Hour,
 			RefreshTimeout:   timeout,
 			Staleness:        stale,
@@ -502,7 +608,7 @@ func vc13NewUnits(
 		Logger:     logger,
 		BlockedServices: &filterstorage.ConfigBlockedServices{
 			IndexURL:            mustURL("/svc"),
-			IndexMaxSize:        maxSize,
+			IndexMaxSize:        limit("/svc"),
 			IndexRefreshTimeout: timeout,
 			IndexStaleness:      stale,
 			ResultCacheCount:    count,
@@ -516,9 +622,9 @@ func vc13NewUnits(
 			NewlyRegistered: u.hashes["newreg"],
 		},
 		RuleLists: &filterstorage.ConfigRuleLists{
-			IndexURL:            mustURL(vc13IdxPath),
-			IndexMaxSize:        maxSize,
-			MaxSize:             maxSize,
+			IndexURL:            idxU,
+			IndexMaxSize:        limit(vc13IdxPath),
+			MaxSize:             limit("/rl/any"),
 			IndexRefreshTimeout: timeout,
 			IndexStaleness:      stale,
 			RefreshTimeout:      timeout,
